@@ -153,6 +153,10 @@ def main():
         lines = [M.check_line(ctx, entries) for ctx, entries in cases]
         outs = [r[0] for r in results]
         dis, _ = chk.stream('check-messages', lines, outs)
+        # the same through check_messages REGENERATED from the source (Generated.MsgChk; runs that end in an exception are left out: the
+        # regenerated method loses the emissions before it)
+        gi = [i for i, o in enumerate(outs) if '!' not in o]
+        chk.stream('check-messages-generated', [lines[i].replace('msg check ', 'msg gcheck ', 1) for i in gi], [outs[i] for i in gi])
         dis_cases = [cases[i] for i in dis]
         chk.note_cases(set(outs))
         hist = collections.Counter()
